@@ -424,6 +424,34 @@ fn run_case(rec: &mut Recorder, c: &Case) {
         rec.bump("unexpected_other_reports");
         rec.notes.push(format!("non-limit report for {key}: {}", clip(&other[0], 200)));
     }
+    // the verdict must not depend on the order of the lists: sort() (or sort_new_items(), which
+    // orders the new elements) followed by check() on the same object gives the same limit report
+    if matches!(c.host, Host::Measurement | Host::AxisPts | Host::TypedefMeasurement | Host::Characteristic) {
+        let mut sorted = a2l.clone();
+        let which = if limits.0.to_bits() % 2 == 0 { "sort()" } else { "sort_new_items()" };
+        if which == "sort()" {
+            sorted.sort();
+        } else {
+            sorted.sort_new_items();
+        }
+        rec.bump("sorted_before_check");
+        match guarded(|| sorted.check()) {
+            Err((sig, detail)) => rec.violation(&format!("{sig} after {which}"), &detail, Json::obj().with("case", Json::s(&key))),
+            Ok(r2) => {
+                let mut l2: Vec<String> = r2.iter().filter(|e| matches!(e, A2lError::LimitCheckError { .. })).map(|e| e.to_string()).collect();
+                let mut l1 = limit_errors.clone();
+                l1.sort();
+                l2.sort();
+                if l1 != l2 {
+                    rec.violation(
+                        &format!("limit report changes when the lists are sorted before check(): {:?}", c.host),
+                        &format!("{key}: before {l1:?}, after {which}: {l2:?}"),
+                        Json::obj().with("case", Json::s(&key)).with("input", Json::s(&clip(&a2l.write_to_string(), 4000))),
+                    );
+                }
+            }
+        }
+    }
     let expect_error = exp.is_some() && !matches!(c.place, Place::Inside | Place::TolLow | Place::TolHigh);
     let sig_ctx = format!("{} {:?}", c.conv.label(), c.host);
     let witness = Json::obj()
@@ -602,6 +630,7 @@ pub fn run(args: &Args, rec: &mut Recorder) {
     rec.floor("place.NearLow", 10);
     rec.floor("place.NearHigh", 10);
     rec.floor("place.TolLow", 10);
+    rec.floor("sorted_before_check", 100);
     rec.floor("place.TolHigh", 10);
 }
 
